@@ -420,6 +420,14 @@ func hardShapes(rt *rapid.T, w *gen.World) *ir.Expr {
 		ir.Bin(ir.OpAnd, ir.Has(ir.Var("context"), gen.Pick(rt, gen.KeysSmall, "hk")), ir.Bin(ir.OpEq, ctxk, ir.Lit(ir.Long(1)))),
 		ir.Bin(ir.OpIn, v, ir.SetE(ir.Var("resource"), ir.Lit(gen.EntityVal(rt)))),
 		ir.Bin(ir.OpEq, v, ir.Lit(gen.EntityVal(rt))),
+		// a branch that is a composite holding a nested unknown, behind an unknown guard
+		ir.Bin(ir.OpEq, ir.Access(ir.If(ir.Is(v, ty), ir.Access(ir.Var("context"), "x"), ir.Lit(ir.Rec(ir.F("a", ir.Long(1))))), "a"), ir.Lit(ir.Long(1))),
+		ir.Bin(ir.OpEq, ir.Access(ir.If(ir.Is(v, ty), ir.Lit(ir.Rec(ir.F("a", ir.Long(1)))), ir.Access(ir.Var("context"), "x")), "a"), ir.Lit(ir.Long(1))),
+		ir.Bin(ir.OpEq, ir.If(ir.Is(v, ty), ir.Var("context"), ir.Lit(w.Req.Context)), ir.Lit(w.Req.Context)),
+		// `is .. in` whose right operand comes from the (possibly unknown or ignored) context
+		ir.IsIn(v, ty, ctxk),
+		ir.IsIn(v, ty, ir.SetE(ctxk)),
+		ir.Un(ir.OpNot, ir.IsIn(v, ty, ctxk)),
 	}
 	return shapes[rapid.IntRange(0, len(shapes)-1).Draw(rt, "shape")]
 }
@@ -609,6 +617,124 @@ func TestTable(t *testing.T) {
 		}
 	}
 	ev.R.Space("condition shapes x scope shapes x effect x {concrete,variable,ignore}^3 for principal/resource/context.a x when/unless, all completions", count)
+}
+
+// TestTableNested: shapes in which a branch / operand is a composite holding a nested unknown, or an `is .. in` whose right
+// operand is unknown or ignored, crossed with every unknown pattern of principal, context.e, context.x.a, context.d.a and the
+// whole context being ignored.
+func TestTableNested(t *testing.T) {
+	if !ev.First() {
+		return
+	}
+	n := 0
+	fail := func(sub, msg string) {
+		n++
+		if n <= 15 {
+			t.Errorf("C06/%s: %s", sub, msg)
+		}
+	}
+	store := ir.Store{{UID: ir.Ent("T0", "a"), Parents: []ir.Value{ir.Ent("T1", "g")}}, {UID: ir.Ent("T1", "g")}, {UID: ir.Ent("T1", "r")}}
+	rec1 := ir.Rec(ir.F("a", ir.Long(1)))
+	baseCtx := func(e, xa, da ir.Value) ir.Value {
+		return ir.Rec(ir.F("a", ir.Long(1)), ir.F("e", e), ir.F("x", ir.Rec(ir.F("a", xa))), ir.F("d", ir.Rec(ir.F("a", da))))
+	}
+	P, R, C := ir.Var("principal"), ir.Var("resource"), ir.Var("context")
+	one := ir.Lit(ir.Long(1))
+	conds := []*ir.Expr{
+		ir.IsIn(P, "T0", ir.Access(C, "e")),
+		ir.Un(ir.OpNot, ir.IsIn(P, "T1", ir.Access(C, "e"))),
+		ir.Bin(ir.OpEq, ir.Access(ir.If(ir.Is(P, "T0"), ir.Access(C, "x"), ir.Access(C, "d")), "a"), one),
+		ir.Bin(ir.OpEq, ir.Access(ir.If(ir.Is(P, "T1"), ir.Access(C, "x"), ir.Access(C, "d")), "a"), one),
+		ir.Bin(ir.OpEq, ir.If(ir.Is(P, "T0"), ir.Access(C, "x"), ir.Lit(rec1)), ir.Lit(rec1)),
+		ir.Bin(ir.OpEq, ir.If(ir.Is(P, "T1"), ir.Lit(rec1), ir.Access(C, "d")), ir.Lit(rec1)),
+		ir.Bin(ir.OpIn, P, ir.SetE(ir.Access(C, "e"), R)),
+		ir.Bin(ir.OpContains, ir.SetE(ir.Access(C, "x")), ir.Lit(rec1)),
+		ir.Bin(ir.OpEq, ir.Access(C, "x"), ir.Access(C, "d")),
+		ir.Bin(ir.OpAnd, ir.Has(ir.Access(C, "x"), "a"), ir.Bin(ir.OpEq, ir.Access(ir.Access(C, "x"), "a"), one)),
+		ir.Bin(ir.OpOr, ir.Bin(ir.OpEq, ir.Access(ir.Access(C, "d"), "a"), ir.Lit(ir.Long(2))), ir.IsIn(P, "T0", ir.Access(C, "e"))),
+		ir.Bin(ir.OpEq, C, ir.Lit(baseCtx(ir.Ent("T1", "g"), ir.Long(1), ir.Long(1)))),
+		ir.IsIn(P, "T0", ir.SetE(ir.Access(C, "e"))),
+	}
+	pc := []ir.Value{ir.Ent("T0", "a"), ir.Ent("T1", "g")}
+	ec := []ir.Value{ir.Ent("T1", "g"), ir.Ent("T0", "zz")}
+	lc := []ir.Value{ir.Long(1), ir.Long(2)}
+	count := 0
+	for ci, cond := range conds {
+		for _, permit := range []bool{true, false} {
+			for _, when := range []bool{true, false} {
+				for mp := 0; mp < 2; mp++ {
+					for me := 0; me < 3; me++ {
+						for mx := 0; mx < 2; mx++ {
+							for md := 0; md < 2; md++ {
+								for wholeIgnore := 0; wholeIgnore < 2; wholeIgnore++ {
+									if (me == 2 || wholeIgnore == 1) && !permit {
+										continue
+									}
+									if wholeIgnore == 1 && (me+mx+md) > 0 {
+										continue
+									}
+									if mp+me+mx+md+wholeIgnore == 0 {
+										continue
+									}
+									p := ir.NewPolicy(permit)
+									p.Conds = []ir.Cond{{When: when, Body: cond}}
+									type dim struct {
+										name  string
+										cands []ir.Value
+									}
+									var dims []dim
+									part := ir.Request{Principal: ir.Ent("T0", "a"), Action: ir.Ent("Action", "view"), Resource: ir.Ent("T1", "r")}
+									if mp == 1 {
+										part.Principal = mkVar("principal")
+										dims = append(dims, dim{"principal", pc})
+									}
+									e, xa, da := ir.Ent("T1", "g"), ir.Long(1), ir.Long(1)
+									switch me {
+									case 1:
+										e = mkVar("ctx_e")
+										dims = append(dims, dim{"ctx_e", ec})
+									case 2:
+										e = mkIgnore()
+										dims = append(dims, dim{"ignore:context.e", ec})
+									}
+									if mx == 1 {
+										xa = mkVar("ctx_xa")
+										dims = append(dims, dim{"ctx_xa", lc})
+									}
+									if md == 1 {
+										da = mkVar("ctx_da")
+										dims = append(dims, dim{"ctx_da", lc})
+									}
+									part.Context = baseCtx(e, xa, da)
+									if wholeIgnore == 1 {
+										part.Context = mkIgnore()
+										dims = append(dims, dim{"ignore:context", []ir.Value{baseCtx(ec[0], lc[0], lc[0]), baseCtx(ec[1], lc[1], lc[0]), baseCtx(ec[0], lc[0], lc[1])}})
+									}
+									c := &Case{Policy: p, Store: store, Part: part}
+									total := 1
+									for _, d := range dims {
+										total *= len(d.cands)
+									}
+									for idx := 0; idx < total; idx++ {
+										comp := map[string]ir.Value{}
+										k := idx
+										for _, d := range dims {
+											comp[d.name] = d.cands[k%len(d.cands)]
+											k /= len(d.cands)
+										}
+										c.Completions = append(c.Completions, comp)
+									}
+									count++
+									run(c, fmt.Sprintf("nested-table:cond%02d", ci), fail)
+								}
+							}
+						}
+					}
+				}
+			}
+		}
+	}
+	ev.R.Space("nested-unknown / is-in condition shapes x effect x when/unless x unknown patterns of principal, context.e (incl. ignore), context.x.a, context.d.a, whole context ignored; all completions", count)
 }
 
 func TestKnown(t *testing.T) {
